@@ -398,6 +398,127 @@ def _from_op_return(f, e, comp):
     return True
 
 
+OPEN_OPTIONS = {
+    'new': {'O_RDONLY'},
+    'read': {'O_ACCMODE', 'O_WRONLY', 'O_RDWR'},
+    'write': {'O_ACCMODE', 'O_RDONLY', 'O_RDWR'},
+    'write_only': {'O_ACCMODE', 'O_WRONLY'},
+    'append': {'O_APPEND'},
+    'truncate': {'O_TRUNC'},
+    'create': {'O_CREAT'},
+    'create_new': {'O_CREAT', 'O_EXCL'},
+    'data_sync': {'O_DSYNC'},
+    'sync': {'O_SYNC'},
+    'direct': {'O_DIRECT'},
+    'open_temp_file': {'O_TMPFILE'},
+}
+
+
+def r6_open_options(r, facts):
+    """each OpenOptions builder ORs exactly the open(2) flag(s) of its name into `flags` (table from open(2))"""
+    n = 0
+    for meth, want in sorted(OPEN_OPTIONS.items()):
+        f = facts.fn_opt('fs::OpenOptions::' + meth)
+        if not r.require(f is not None, 'OpenOptions::' + meth, 'builder method OpenOptions::%s not found' % meth):
+            continue
+        eb = ExprBuilder(f, multi='phi')
+        got = set()
+        cleared = set()
+        for loc, s in f.assigns():
+            names = [p.get('name') for p in s['lhs']['p'] if p['k'] == 'field']
+            if names[-1:] == ['flags'] or (s['rv']['k'] == 'agg' and (s['rv'].get('adt') or '') == 'fs::OpenOptions'):
+                e = eb.rvalue(s['rv'])
+                for x in subexprs(e):
+                    if x[0] == 'const' and x[2] and re.match(r'^libc::O_\w+$', str(x[2])):
+                        got.add(str(x[2])[6:])
+        # constants compared against (accmode tests) count as used
+        for b, blk in enumerate(f.blocks):
+            if blk['term']['k'] == 'switch' and not blk['cleanup']:
+                e = eb.operand(blk['term']['discr'])
+                for x in subexprs(e):
+                    if x[0] == 'const' and x[2] and re.match(r'^libc::O_\w+$', str(x[2])):
+                        got.add(str(x[2])[6:])
+        n += 1
+        r.inst('OpenOptions::%s -> %s' % (meth, sorted(got)), f.where())
+        r.require(got == want, 'OpenOptions::' + meth, 'OpenOptions::%s uses open flags %s, open(2) semantics of its name need %s' % (meth, sorted(got), sorted(want)), f.where())
+    # write-only / read-write transitions keep the other bits: `flags &= !O_ACCMODE` precedes the OR
+    for meth in ('read', 'write', 'write_only'):
+        f = facts.fn_opt('fs::OpenOptions::' + meth)
+        if f is None:
+            continue
+        eb = ExprBuilder(f, multi='phi')
+        ok = False
+        for loc, s in f.assigns():
+            names = [p.get('name') for p in s['lhs']['p'] if p['k'] == 'field']
+            if names[-1:] == ['flags']:
+                e = eb.rvalue(s['rv'])
+                if e[0] == 'bin' and e[1] == 'BitAnd' and any(x[0] == 'un' and x[1] == 'Not' for x in (e[2], e[3])):
+                    ok = True
+        r.require(ok, 'OpenOptions::%s/accmode' % meth, 'OpenOptions::%s does not clear the access mode bits before setting the new mode' % meth, f.where())
+    # mode(): writes self.mode from the parameter; default 0o666
+    f = facts.fn_opt('fs::OpenOptions::mode')
+    if r.require(f is not None, 'OpenOptions::mode', 'OpenOptions::mode not found'):
+        eb = ExprBuilder(f, multi='phi')
+        ok = False
+        for loc, s in f.assigns():
+            names = [p.get('name') for p in s['lhs']['p'] if p['k'] == 'field']
+            if names[-1:] == ['mode']:
+                e = eb.rvalue(s['rv'])
+                ok = any(x[0] == 'arg' and x[2] == 'mode' for x in subexprs(e))
+        r.require(ok, 'OpenOptions::mode', 'mode() does not store its parameter', f.where())
+    r.floor(12, 'OpenOptions builders')
+
+
+SOCKET_OPTIONS = {
+    'Accept': ('SOL_SOCKET', 'SO_ACCEPTCONN'), 'Domain': ('SOL_SOCKET', 'SO_DOMAIN'), 'Error': ('SOL_SOCKET', 'SO_ERROR'),
+    'IncomingCpu': ('SOL_SOCKET', 'SO_INCOMING_CPU'), 'KeepAlive': ('SOL_SOCKET', 'SO_KEEPALIVE'), 'Linger': ('SOL_SOCKET', 'SO_LINGER'),
+    'Protocol': ('SOL_SOCKET', 'SO_PROTOCOL'), 'RecvBuf': ('SOL_SOCKET', 'SO_RCVBUF'), 'RecvLowWater': ('SOL_SOCKET', 'SO_RCVLOWAT'),
+    'ReuseAddress': ('SOL_SOCKET', 'SO_REUSEADDR'), 'ReusePort': ('SOL_SOCKET', 'SO_REUSEPORT'), 'SendBuf': ('SOL_SOCKET', 'SO_SNDBUF'),
+    'SendLowWater': ('SOL_SOCKET', 'SO_SNDLOWAT'), 'Type': ('SOL_SOCKET', 'SO_TYPE'),
+    'TcpCork': ('IPPROTO_TCP', 'TCP_CORK'), 'TcpKeepAliveCount': ('IPPROTO_TCP', 'TCP_KEEPCNT'), 'TcpKeepAliveIdle': ('IPPROTO_TCP', 'TCP_KEEPIDLE'),
+    'TcpKeepAliveInterval': ('IPPROTO_TCP', 'TCP_KEEPINTVL'), 'TcpNoDelay': ('IPPROTO_TCP', 'TCP_NODELAY'),
+}
+
+
+def header_defines(paths):
+    vals = {}
+    for p in paths:
+        try:
+            txt = open(p).read()
+        except OSError:
+            continue
+        for m in re.finditer(r'^#define\s+(\w+)\s+(0x[0-9a-fA-F]+|\d+)\b', txt, flags=re.M):
+            vals.setdefault(m.group(1), int(m.group(2), 0))
+        for m in re.finditer(r'^\s*(IPPROTO_\w+)\s*=\s*(\d+)', txt, flags=re.M):
+            vals.setdefault(m.group(1), int(m.group(2)))
+    return vals
+
+
+def r7_socket_options(r, facts):
+    """each socket option type names the level/option of its socket(7)/tcp(7) counterpart (values from the system headers)"""
+    hv = header_defines(['/usr/include/asm-generic/socket.h', '/usr/include/linux/tcp.h', '/usr/include/netinet/tcp.h', '/usr/include/linux/in.h'])
+    seen = set()
+    for path, c in sorted(facts.consts.items()):
+        m = re.match(r'^<net::option::(\w+) as net::option::(Get|Set)>::(LEVEL|OPT)$', path)
+        if not m:
+            continue
+        ty, tr, which = m.groups()
+        seen.add(ty)
+        row = SOCKET_OPTIONS.get(ty)
+        if not r.require(row is not None, 'option:%s' % ty, 'socket option type %s has no row in the option table (new option: add it)' % ty):
+            continue
+        name = row[0] if which == 'LEVEL' else row[1]
+        want = hv.get(name)
+        if not r.require(want is not None, 'header:%s' % name, 'constant %s not found in the system headers' % name):
+            continue
+        got = int(c['val']) if 'val' in c else None
+        r.inst('%s %s::%s = %s (%s=%d)' % (ty, tr, which, got, name, want), '%s:%s' % (c['span']['file'], c['span']['line']))
+        r.require(got == want, 'option:%s/%s/%s' % (ty, tr, which), '%s as %s uses %s = %s, but %s is %d' % (ty, tr, which, got, name, want), '%s:%s' % (c['span']['file'], c['span']['line']))
+    for ty in SOCKET_OPTIONS:
+        r.require(ty in seen, 'option-missing:%s' % ty, 'socket option %s listed in the table no longer exists' % ty)
+    r.floor(60, 'option constants')
+
+
 def check(ctx):
     ctx.run('C13.R1', 'end-to-end argument placement (public parameter -> SQE byte position) vs the io_uring ABI table', r1_flow_vs_abi)
     ctx.run('C13.R2', 'opcode / flag constants vs <linux/io_uring.h>', r2_constants)
@@ -405,3 +526,5 @@ def check(ctx):
     ctx.run('C13.R4', 'IOSQE_FIXED_FILE iff the AsyncFd is a direct descriptor, applied after fill_submission', r4_fixed_file)
     ctx.run('C13.R4b', 'the AsyncFd\'s own descriptor sits at SQE position 4 (the one IOSQE_FIXED_FILE qualifies)', r4b_fd_position)
     ctx.run('C13.R5', 'decoders take count / buffer id from this completion\'s OpReturn', r5_decoders)
+    ctx.run('C13.R6', 'OpenOptions builders set exactly the open(2) flags of their name', r6_open_options)
+    ctx.run('C13.R7', 'socket option types carry the level/option numbers of their socket(7)/tcp(7) counterpart', r7_socket_options)
